@@ -12,7 +12,13 @@ func relayout(r *rand.Rand, src string) (string, []string) {
 	toks := fuzzTokRe.FindAllString(src, -1)
 	ops := []string{}
 	var b strings.Builder
-	crlf := r.Intn(3) == 0
+	verbatimTail := false
+	for i, t := range toks {
+		if (t == "/" && i+1 < len(toks) && toks[i+1] == "*") || t == "\"" || t == "`" {
+			verbatimTail = true
+		}
+	}
+	crlf := !verbatimTail && r.Intn(3) == 0
 	if crlf {
 		ops = append(ops, "crlf")
 	}
@@ -21,6 +27,13 @@ func relayout(r *rand.Rand, src string) (string, []string) {
 		return len(t) > 0 && strings.ContainsAny(t[:1], "()[]{},;:=!<>&|+*/%@.") && !strings.HasPrefix(t, "//") && !strings.HasPrefix(t, "/*")
 	}
 	for i, t := range toks {
+		// an unterminated comment or string literal swallows the rest of the file: everything behind its opener is inside
+		// one token, so nothing may change there (an inserted block comment would close an open comment)
+		if (t == "/" && i+1 < len(toks) && toks[i+1] == "*") || t == "\"" || t == "`" {
+			b.WriteString(strings.Join(toks[i:], ""))
+			verbatimTail = true
+			break
+		}
 		if isSpace(t) {
 			if strings.Contains(t, "\n") {
 				// an existing line break: keep it, maybe add blank / comment-only lines and new indentation
@@ -69,7 +82,11 @@ func relayout(r *rand.Rand, src string) (string, []string) {
 		}
 	}
 	out := b.String()
-	switch r.Intn(3) {
+	k := r.Intn(3)
+	if verbatimTail {
+		k = 2
+	}
+	switch k {
 	case 0:
 		out = strings.TrimRight(out, " \t\n")
 		ops = append(ops, "no-final-newline")
